@@ -272,6 +272,56 @@ def _fields_of_self(node, binds):
             _fields_of_self(v, binds)
 
 
+def n7(body):
+    """N7: `let (a, b) = (e1, e2);` is `let a = e1; let b = e2;` (same evaluation order); nested tuples and typed
+    patterns are left alone."""
+    for blk in [n for n in walk(body) if n["k"] == "Block"]:
+        out = []
+        for s_ in blk["stmts"]:
+            if s_.get("k") == "Local" and s_.get("else") is None and s_.get("init") is not None and s_["pat"]["k"] == "PTuple":
+                init = s_["init"]
+                while isinstance(init, dict) and init.get("k") == "Paren":
+                    init = init["e"]
+                els = s_["pat"]["elems"]
+                if init.get("k") == "Tuple" and len(init["elems"]) == len(els) and len(els) >= 2 and all(x["k"] in ("PIdent", "PWild") and x.get("sub") is None for x in els):
+                    names = [x["name"] for x in els if x["k"] == "PIdent"]
+                    # a later element must not mention an earlier binding of the same statement (it would change meaning)
+                    clash = any(n_["k"] == "Path" and n_["path"] in names for e_ in init["elems"] for n_ in walk(e_))
+                    if not clash:
+                        for x, e_ in zip(els, init["elems"]):
+                            out.append({"k": "Local", "line": s_.get("line", 0), "pat": x, "init": e_, "else": None, "ty": None})
+                        continue
+            out.append(s_)
+        blk["stmts"] = out
+
+
+def n8(body):
+    """N8: a statement `ITER.for_each(|p| BODY);` is `for p in ITER { BODY }` when the closure has one parameter, does
+    not `move` and its body contains no `return` / `?` / `break` / `continue` (which mean something else in a closure)."""
+    for blk in [n for n in walk(body) if n["k"] == "Block"]:
+        for s_ in blk["stmts"]:
+            if s_.get("k") != "ExprStmt":
+                continue
+            e = s_["e"]
+            while isinstance(e, dict) and e.get("k") == "Paren":
+                e = e["e"]
+            if e.get("k") == "MethodCall" and e["method"] == "for_each" and len(e["args"]) == 1 and e["args"][0].get("k") == "Closure" and len(e["args"][0]["inputs"]) == 1:
+                cl = e["args"][0]
+                if any(x["k"] in ("Return", "Try", "Break", "Continue") for x in walk(cl["body"])):
+                    continue
+                b = cl["body"]
+                if b.get("k") != "Block":
+                    b = {"k": "Block", "line": b.get("line", 0), "end_line": b.get("line", 0), "stmts": [{"k": "ExprStmt", "line": b.get("line", 0), "e": b, "semi": True}]}
+                pat = cl["inputs"][0]
+                while pat.get("k") == "PType":
+                    pat = pat["pat"]
+                it = e["recv"]
+                if it.get("k") == "MethodCall" and it["method"] == "into_iter" and not it["args"]:
+                    it = it["recv"]  # `for p in X` already calls into_iter
+                s_["e"] = {"k": "For", "line": e.get("line", 0), "pat": pat, "iter": it, "body": b}
+                s_["semi"] = False
+
+
 def normalise_fn(fn):
     body = fn.get("body")
     if not body:
@@ -279,6 +329,8 @@ def normalise_fn(fn):
     n1(fn)
     n3(body)
     n6(body)
+    n7(body)
+    n8(body)
     n5(body)
     for i in fn["sig"]["inputs"]:
         if not i.get("self") and i.get("pat"):
